@@ -18,6 +18,24 @@ M = {
  'c09_flush_reported_as_read': ('client.rs',
   "            .map_err(|e| ChannelError::Flush(Arc::new(e)))",
   "            .map_err(|e| ChannelError::Read(Arc::new(e)))"),
+ 'c09_server_swallows_write_error': ('server.rs',
+  "                .start_send(response)\n                .map_err(|e| ChannelError::Write(Arc::new(e)))\n        } else {",
+  "                .start_send(response)\n                .or(Ok(()))\n        } else {"),
+ 'c09_send_failure_ignored': ('client.rs',
+  "                self.in_flight_requests()\n                    .complete_request(request_id, Err(RpcError::Send(Box::new(e))));",
+  "                let _ = e;"),
+ 'c09_read_error_ends_ok': ('client.rs',
+  "            .map_err(|e| ChannelError::Read(Arc::new(e)))\n            .map_ok(|response| {",
+  "            .map(|r| match r { Some(Err(_)) => None, o => o })\n            .map_err(|e: C::Error| ChannelError::Read(Arc::new(e)))\n            .map_ok(|response| {"),
+ 'c13_limit_gt': ('server/limits/channels_per_key.rs',
+  "                if count >= usize::try_from(*self_.channels_per_key).unwrap() {",
+  "                if count > usize::try_from(*self_.channels_per_key).unwrap() {"),
+ 'c13_stale_notification_removes_live_entry': ('server/limits/channels_per_key.rs',
+  "                    if entry.get().strong_count() == 0 {\n                        entry.remove();\n                    }",
+  "                    entry.remove();"),
+ 'c13_dead_tracker_counts_as_one': ('server/limits/channels_per_key.rs',
+  "                let count = o.get().strong_count();",
+  "                let count = o.get().strong_count().max(1);"),
  'c10_close_before_cancels': ('client.rs',
   "        let canceled_requests_status = match self.as_mut().poll_write_cancel(cx)? {\n",
   "        let canceled_requests_status = if matches!(pending_requests_status, ReceiverStatus::Closed) {\n            ReceiverStatus::Closed\n        } else {\n            match self.as_mut().poll_write_cancel(cx)? {\n                Poll::Ready(Some(())) => return Poll::Ready(Some(Ok(()))),\n                Poll::Ready(None) => ReceiverStatus::Closed,\n                Poll::Pending => ReceiverStatus::Pending,\n            }\n        };\n        #[cfg(any())]\n        let _ = match self.as_mut().poll_write_cancel(cx)? {\n"),
